@@ -22,7 +22,8 @@ func main() {
 	fs := flag.NewFlagSet(stage, flag.ExitOnError)
 	seed := fs.Uint64("seed", 1, "VERIF_SEED")
 	tier := fs.String("tier", "quick", "quick|thorough")
-	oracle := fs.String("oracle", "/verif/lean/.lake/build/bin/oracle", "Lean oracle executable")
+	oracle := fs.String("oracle", "/verif/lean/.lake/build/bin/oracle", "Lean oracle executable (specification judges)")
+	moracle := fs.String("moracle", "/verif/lean/.lake/build/bin/moracle", "Lean oracle executable (generated model + hand models)")
 	out := fs.String("out", "-", "result json")
 	n := fs.Int("n", 0, "number of cases (0 = tier default)")
 	workers := fs.Int("workers", runtime.NumCPU(), "parallel workers")
@@ -31,7 +32,7 @@ func main() {
 	fs.IntVar(&c03From, "from", 0, "first case index (child mode)")
 	fs.IntVar(&c03To, "to", 0, "end case index (child mode)")
 	fs.Parse(os.Args[2:])
-	ctx := &Ctx{Seed: *seed, Tier: *tier, Oracle: *oracle, Workers: *workers, Budget: *budget}
+	ctx := &Ctx{Seed: *seed, Tier: *tier, Oracle: *oracle, MOracle: *moracle, Workers: *workers, Budget: *budget}
 	cnt := func(q, t int) int {
 		k := q
 		if *tier == "thorough" {
